@@ -189,6 +189,15 @@ func (a *Act) intrinsic(name string, fv FuncV, args []Value) (Value, bool) {
 			return a.callFunc(FuncV{fn: vn}, nil), true
 		}
 		return in.timeVal(in.fresh("now", BVS(64))), true
+	case "time.Unix":
+		sec, ns := args[0].(*Term), args[1].(*Term)
+		return in.timeVal(BvBin("bvadd", BvBin("bvmul", sec, BV(64, 1000000000)), ns)), true
+	case "(time.Time).Equal":
+		return Eq(args[0].(StructV).f[1].(*Term), args[1].(StructV).f[1].(*Term)), true
+	case "(time.Time).IsZero":
+		return Eq(args[0].(StructV).f[1].(*Term), BV(64, 0)), true
+	case "(time.Time).UnixNano":
+		return args[0].(StructV).f[1].(*Term), true
 	case "(time.Time).Before":
 		return BvCmp("bvslt", args[0].(StructV).f[1].(*Term), args[1].(StructV).f[1].(*Term)), true
 	case "(time.Time).After":
@@ -285,6 +294,18 @@ func (a *Act) intrinsic(name string, fv FuncV, args []Value) (Value, bool) {
 		c := args[0].(*Term)
 		in.obligation(a.g, "assert", argStr(args[1]), Not(c))
 		return nil, true
+	case "verifBatch":
+		if args[0].(*Term).IsTrue() {
+			in.batchDepth++
+		} else {
+			in.batchDepth--
+			if in.batchDepth == 0 {
+				l := in.batch
+				in.batch = nil
+				in.flush(l)
+			}
+		}
+		return nil, true
 	case "verifKnown":
 		id := argStr(args[0])
 		c := And(a.g, args[1].(*Term))
@@ -305,6 +326,20 @@ func (a *Act) intrinsic(name string, fv FuncV, args []Value) (Value, bool) {
 		return nil, true
 	case "verifFlag":
 		return BoolC(in.flags[argStr(args[0])]), true
+	case "verifCase":
+		// a case split decided per job ("-flag name=3"): constant here, so the SSA paths of the
+		// other cases fold away; without the flag the value is an ordinary symbolic int
+		name := argStr(args[0])
+		for f := range in.flags {
+			if strings.HasPrefix(f, name+"=") {
+				v, err := strconv.Atoi(f[len(name)+1:])
+				if err != nil {
+					panic(unsupported("bad case flag " + f))
+				}
+				return BV(64, uint64(v)), true
+			}
+		}
+		return in.named(name, BVS(64)), true
 	case "verifRecord":
 		in.recTag = argStr(args[0])
 		if in.recTag != "" && in.firstRecObj == 0 {
